@@ -2,7 +2,8 @@
   C20 — Serialized CSS re-parses to the same component values.
   Theorems about the model of serialize.go (WR/C20/Serialize.lean) composed with the C06 tokenizer
   model, and about the separator table regenerated from the code (WR/Gen/C20Pairs.lean).
-  Helper lemmas: WR/C20/Lemmas.lean, RoundTrip.lean, TokenLevel.lean.
+  Helper lemmas: WR/C20/Lemmas.lean, RoundTrip.lean, TokenLevel.lean, TokenLevel2.lean, Numbers.lean,
+  Partial.lean, Adjacent.lean.
 
   FULL STATEMENT (P2 `roundtrip`):
       ∀ css, hasError (tokenize css) = false → roundTrips badPairs css = true
@@ -19,13 +20,14 @@
       `dimension_unit_roundtrip`); the exclusions of `ident_token_roundtrip` are exactly the
       findings above.  `separator_table_complete`: the regenerated table contains every pair of the
       css-syntax-3 §9 table; `separator_table_still_missing`: the unrepaired pair is absent.
-  `roundtrip_partial` (whole lists, end of this file): for every list of identifiers, strings and
-  urls with arbitrary contents, separated by single white-space tokens, serialize → tokenize gives
-  the same tokens.  Its domain excludes, besides the token classes not yet handled (numbers,
-  hashes, at-keywords, literals, blocks, functions), exactly the unrepaired cases: they all need two
-  non-white-space tokens next to each other, or two white-space tokens next to each other.
+  `roundtrip_partial` (whole lists, end of this file): for EVERY sequence of identifiers, strings,
+  urls, at-keywords, hashes (both types), numbers, percentages, dimensions and white space, adjacent
+  in any order, serialize → tokenize gives the same tokens: each adjacent pair either gets `/**/` from
+  the regenerated table or provably cannot fuse.  Its domain excludes only two white-space tokens in
+  a row (F20-8) and the token classes not handled as atoms: literals / delimiters (where the other
+  three unrepaired findings live), unicode-range, blocks and functions (nesting), error tokens.
 -/
-import WR.C20.Partial
+import WR.C20.Adjacent
 namespace WR.Props.C20
 open WR.C06 WR.C20 WR.Gen.C20Pairs List
 
@@ -111,6 +113,58 @@ theorem dimension_unit_roundtrip (pos : Nat) (repr : Str) (isInt : Bool) (u t r 
     consumeNumeric pos repr isInt (t ++ r) = .leaf [Tok.dim pos repr isInt u] r :=
   dim_numeric pos repr isInt u t r hs hr
 
+/-- at-keywords -/
+theorem atkeyword_token_roundtrip (total : Nat) (s t r : Str) (hs : serializeIdentifier s = some t)
+    (hr : stopsName r) :
+    step Quirks.spec total ('@' :: t ++ r) = .leaf [Tok.atkw (total - ('@' :: t ++ r).length) s] r :=
+  atkw_step total s t r hs hr
+
+/-- hashes: the value AND the id flag survive.  An id-type hash is written as an identifier (first
+code point escaped when needed: `#\31 a`, `#-\32 x`, `#\-`), an unrestricted hash — whose value can
+only be a lone `-` or start with a digit or `-`digit — as a name -/
+theorem hash_token_roundtrip (total : Nat) (v t r : Str) (isId : Bool)
+    (ht : (if isId then serializeIdentifier v else some (serializeName v)) = some t)
+    (hv : isId = false → NonIdValue v) (hr : stopsName r) :
+    step Quirks.spec total ('#' :: t ++ r) = .leaf [Tok.hash (total - ('#' :: t ++ r).length) v isId] r :=
+  hash_step total v t r isId ht hv hr
+
+example : NonIdValue ['-'] ∧ NonIdValue ['1', 'a'] ∧ NonIdValue ['-', '2', 'x'] :=
+  ⟨Or.inl rfl, Or.inr (Or.inl ⟨'1', ['a'], rfl, by decide⟩), Or.inr (Or.inr ⟨'2', ['x'], rfl, by decide⟩)⟩
+
+/-- function names: identifier text + `(` opens a function with exactly that name -/
+theorem function_name_roundtrip (total : Nat) (s t rest : Str) (hs : serializeIdentifier s = some t)
+    (hu : isUrlName s = false) :
+    step Quirks.spec total (t ++ '(' :: rest) = .openF s rest :=
+  function_step total s t rest hs hu
+
+/-- numbers: the representation and the integer flag survive whenever what follows can neither
+continue the number nor start a unit or be `%` (`NumStop`: not a digit, not `.`, not an exponent) -/
+theorem number_token_roundtrip (total : Nat) (repr x : Str) (flag : Bool)
+    (h : consumeNumber repr = some (repr, flag, [])) (hx : NumStop x)
+    (hid : startsIdent x = false) (hpct : ∀ t, x ≠ '%' :: t) :
+    step Quirks.spec total (repr ++ x) = .leaf [Tok.num (total - (repr ++ x).length) repr flag] x :=
+  number_step total repr x flag h hx hid hpct
+
+example : consumeNumber ['-', '1', '.', '5', 'e', '3'] = some (['-', '1', '.', '5', 'e', '3'], false, []) ∧
+    NumStop [' ', '5'] ∧ NumStop [] := by
+  refine ⟨by decide, ⟨Or.inr ⟨' ', ['5'], rfl, by decide⟩, ?_, by decide⟩, ⟨Or.inl rfl, ?_, by decide⟩⟩
+  · intro t h; cases h
+  · intro t h; cases h
+
+/-- percentages: no condition on what follows -/
+theorem percentage_token_roundtrip (total : Nat) (repr x : Str) (flag : Bool)
+    (h : consumeNumber repr = some (repr, flag, [])) :
+    step Quirks.spec total (repr ++ '%' :: x)
+      = .leaf [Tok.pct (total - (repr ++ '%' :: x).length) repr flag] x :=
+  percentage_step total repr x flag h
+
+/-- dimensions: representation, integer flag and unit survive (units `e`, `E3`, `e-x`, `1a` … included) -/
+theorem dimension_token_roundtrip (total : Nat) (repr u t r : Str) (flag : Bool)
+    (h : consumeNumber repr = some (repr, flag, [])) (hs : serializeUnit u = some t) (hr : stopsName r) :
+    step Quirks.spec total (repr ++ (t ++ r))
+      = .leaf [Tok.dim (total - (repr ++ (t ++ r)).length) repr flag u] r :=
+  dimension_step total repr u t r flag h hs hr
+
 /-! ## the separator table (regenerated from the code on every run) -/
 
 /-- P1 `separator_complete` over the table: every pair of the css-syntax-3 §9 table is in the code's
@@ -172,23 +226,29 @@ theorem F20_8_whitespace : roundTrips badPairs [' ', '/', '*', '*', '/', ' '] = 
 /-! ## whole lists -/
 
 /-- P2 `roundtrip_partial`.  Full statement (false, see the header):
-`∀ ts, error-free → tokenize (serialize ts) ≈ ts`.  Proved: for EVERY list `ts` of identifiers,
-closed strings and closed urls (arbitrary values: escapes, control characters, quotes, newlines,
-non-ASCII; urls without NUL) separated by single white-space tokens, optionally starting and/or
-ending with one (`WsSeparated ts txt`, `txt` being the concatenation of the texts), the model of
-serialize.go with the table of the running code writes exactly `txt`, and `txt` tokenizes back to
-`ts`, positions aside (`strip` zeroes positions and drops comments). -/
-theorem roundtrip_partial (ts : List Tok) (txt : Str) (h : WsSeparated ts txt) :
+`∀ ts, error-free → tokenize (serialize ts) ≈ ts`.  Proved: for EVERY sequence `ts` of atoms —
+identifiers, closed strings, closed urls (no NUL), at-keywords, hashes of both types, numbers,
+percentages, dimensions, white space; arbitrary values, representations and units; adjacent in
+any order, two white-space tokens in a row excepted — (`Seq badPairs ts txt`, `txt` being the texts
+of the atoms with the separators of the table between them), the model of serialize.go with the
+table of the running code writes exactly `txt`, and `txt` tokenizes back to `ts`, positions and
+the inserted comments aside.  The proof goes pair by pair (`pair_cases`): the table contains the
+pair, or the first token ends with an unambiguous delimiter, or the second starts with a code
+point that cannot be absorbed. -/
+theorem roundtrip_partial (ts : List Tok) (txt : Str) (h : Seq badPairs ts txt) :
+    serialize badPairs ts = some txt ∧ strip (tokenizePre Quirks.spec txt) = strip ts :=
+  roundtrip_adjacent ts txt h
+
+/-- the domain is inhabited by non-trivial sequences: `1em` `#a` `b` `"c"` with nothing between them -/
+example : ∃ txt, Seq badPairs
+    [.dim 0 ['1'] true ['e', 'm'], .hash 3 ['a'] true, .ident 5 ['b'], .str 6 ['c'] false] txt := by
+  refine ⟨_, .cons _ _ _ _ _ (.dim 0 ['1'] true ['e', 'm'] ['e', 'm'] (by decide) (by decide))
+    (.cons _ _ _ _ _ (.hashId 3 ['a'] ['a'] (by decide))
+      (.cons _ _ _ _ _ (.ident 5 ['b'] ['b'] (by decide)) (.one _ _ (.str 6 ['c'])) rfl) rfl) rfl⟩
+
+/-- the earlier, weaker form: identifiers, strings and urls separated by single white-space tokens -/
+theorem roundtrip_partial_ws_separated (ts : List Tok) (txt : Str) (h : WsSeparated ts txt) :
     serialize badPairs ts = some txt ∧ strip (tokenizePre Quirks.spec txt) = strip ts :=
   roundtrip_ws_separated ts txt h
-
-/-- the domain is inhabited by non-trivial lists: `--x "a" url(b)` -/
-example : WsSeparated
-    [.ident 0 ['-', '-', 'x'], .ws 3 [' '], .str 4 ['a'] false, .ws 7 [' '], .url 8 ['b'] false]
-    (['-', '-', 'x'] ++ [' '] ++ (['"', 'a', '"'] ++ [' '] ++ ['u', 'r', 'l', '(', 'b', ')'])) := by
-  refine .chain _ _ (.cons _ _ _ _ _ _ (.ident _ _ _ (by decide)) ⟨by decide, by decide⟩
-    (.cons _ _ _ _ _ _ ?_ ⟨by decide, by decide⟩ (.last _ _ ?_)))
-  · exact Simple.str 4 ['a']
-  · exact Simple.url 8 ['b'] (by decide)
 
 end WR.Props.C20
